@@ -97,7 +97,7 @@ func sp(s string) *string { return &s }
 
 func (m c20) genShape(r *RNG) c20shape {
 	var sh c20shape
-	jsonNames := []string{"a", "b", "ab", "name", "id", "x-y", "f_1", "A", "Name", "AB", "aB", "-", "-", "--", "-x"}
+	jsonNames := []string{"a", "b", "ab", "name", "id", "x-y", "f_1", "A", "Name", "AB", "aB", "-", "-", "--", "-x", "type", "type", "meta", "links"}
 	nf := r.Range(0, 7)
 	for i := 0; i < nf; i++ {
 		f := c20field{Name: fmt.Sprintf("F%d", i)}
